@@ -902,3 +902,19 @@ def pre_checks(ctx):
         except Exception as e:
             bad.append(("table:ALGORITHMS", "_new_hash(%r, 0) raised %r: a member of ALGORITHMS is not usable" % (a, e)))
     return bad
+
+
+# functions of /repo whose executed-line coverage by this run is reported in the evidence
+ANCHORS = [('swh/model/hashutil.py', 'MultiHash.*'),
+           ('swh/model/hashutil.py', 'git_object_header'),
+           ('swh/model/hashutil.py', '_new_hash'),
+           ('swh/model/hashutil.py', 'hash_git_data'),
+           ('swh/model/model.py', 'BaseContent._hash_data'),
+           ('swh/model/model.py', 'Content.from_data'),
+           ('swh/model/model.py', 'SkippedContent.from_data'),
+           ('swh/model/from_disk.py', 'Content.from_bytes'),
+           ('swh/model/from_disk.py', 'Content.from_file'),
+           ('swh/model/from_disk.py', 'Content.from_symlink'),
+           ('swh/model/git_objects.py', 'content_git_object'),
+           ('swh/model/cli.py', 'swhid_of_file'),
+           ('swh/model/cli.py', 'swhid_of_file_content')]
